@@ -85,7 +85,7 @@ def c08_harness(chk, snaps, dom, tag):
     with open(scen, "w") as fh:
         for o in snaps:
             fh.write(json.dumps({"id": o["id"], "snap": o["snap"]}) + "\n")
-    ov = vlib.overlay_for(vlib.harness_mapping("config", "internal/config"), os.path.join(chk.work, "ov_config"))
+    ov = vlib.overlay_for(vlib.harness_mapping("config", "internal/config", with_kit=False), os.path.join(chk.work, "ov_config"))
     rc, out = vlib.go_test("internal/config", "^TestVerifConfigParse$", ov,
                            {"VERIF_SCENARIOS": scen, "VERIF_OBS": obs, "VERIF_DOMAIN": dpath})
     if rc != 0:
